@@ -351,6 +351,13 @@ def r5(ctx):
     ctx.ob("pass starts at WORST_SCORE", starts and all(x == "<P as chess_engine::Policy>::WORST_SCORE" for x in starts), f"root score is initialised from {starts}", site=site, sample=starts[:1])
 
 
+@rule("C12.R6", "premise: the staged move iteration of the search (set_mask / next / len) loses no legal move (C10.R3, C10.R7, C10.R9 re-run)")
+def r_premise(ctx):
+    from analysis.runner import premise
+    premise(ctx, "C10", {'C10.R9', 'C10.R7', 'C10.R3'}, "the search iterates captures first and then re-masks the same generator; that iteration no longer yields every legal move exactly once")
+
+
+
 # ------------------------------------------------------------------ controls
 def _swap_mate_colors(P):
     key = P.find_fn("Engine::alphabeta", "chess_engine")
